@@ -106,9 +106,34 @@ static void put_idx(const MPT_STRUCT(node) *n)
 }
 /* names: 0 unnamed, 1..3 "a".."c", 4 a text of 21 characters (needs its own allocation in a
  * default node and in a clone), 5 a binary identifier (no charset, one byte 'a'), 6 a text of 29 characters
- * (allocated in a default node, inside the node in a clone), 9 anything else */
+ * (allocated in a default node, inside the node in a clone), 100 + n the text T<n> of n characters, 9 anything else */
 static const char LONGNAME[] = "Labcdefghijklmnopqrst";
 static const char MIDNAME[] = "Mabcdefghijklmnopqrstuvwxyz01";   /* 29 + 1 bytes: mpt_node_new(30) makes room for it */
+/* T<n>: a text of n characters (1 <= n <= TNAME_MAX), name code 100 + n: 'T', then letters that depend on place and
+ * length.  The lengths around what a node has room for (mpt_node_new: 64, 128, 256 bytes = 20, 84, 212 bytes of
+ * identifier data, terminator included) are the ones of interest. */
+#define TNAME_MAX 400
+static void tname_fill(char *d, int n)
+{
+	int i;
+	for (i = 0; i < n; i++) d[i] = i ? 'a' + (i + n) % 26 : 'T';
+	d[n] = 0;
+}
+static int tname_arg(const char *nm)
+{
+	int n;
+	if (nm[0] != 'T' || !nm[1]) return 0;
+	n = atoi(nm + 1);
+	if (n < 1 || n > TNAME_MAX) { fprintf(stderr, "bad name %s\n", nm); abort(); }
+	return n;
+}
+static int tname_code(const char *d, size_t len)
+{
+	char cmp[TNAME_MAX + 1];
+	if (len < 2 || len - 1 > TNAME_MAX) return 9;
+	tname_fill(cmp, len - 1);
+	return memcmp(d, cmp, len) ? 9 : 100 + (int) (len - 1);
+}
 static int name_code(const MPT_STRUCT(node) *n)
 {
 	const MPT_STRUCT(identifier) *id = &n->ident;
@@ -119,6 +144,7 @@ static int name_code(const MPT_STRUCT(node) *n)
 		if (id->_len == 2 && d[0] >= 'a' && d[0] <= 'c' && !d[1]) return d[0] - 'a' + 1;
 		if (id->_len == sizeof(LONGNAME) && !memcmp(d, LONGNAME, sizeof(LONGNAME))) return 4;
 		if (id->_len == sizeof(MIDNAME) && !memcmp(d, MIDNAME, sizeof(MIDNAME))) return 6;
+		if (d[0] == 'T') return tname_code(d, id->_len);
 		return 9;
 	}
 	if (!id->_charset && id->_len == 1 && d[0] == 'a' && !mpt_node_ident(n)) return 5;
@@ -171,7 +197,11 @@ static void shape_list(const MPT_STRUCT(node) *n, int first)
 	i = idx(n);
 	if (i < 0 || is_freed(i)) { vh_add("?"); return; }
 	if (!first) vh_add(",");
-	vh_add("%d%c%d", i, "_abcLBM???"[name_code(n)], val_code(n));
+	{
+		int nc = name_code(n);
+		if (nc >= 100) vh_add("%dT%d:%d", i, nc - 100, val_code(n));
+		else vh_add("%d%c%d", i, "_abcLBM???"[nc], val_code(n));
+	}
 	if (n->children) { vh_add("("); shape_list(n->children, 1); vh_add(")"); }
 	shape_list(n->next, 0);
 }
@@ -279,6 +309,9 @@ static void query(const char *q, const void **ident, size_t *len, int *charset)
 }
 static const char *name_arg(const char *nm)
 {
+	static char tn[TNAME_MAX + 1];
+	int n = tname_arg(nm);
+	if (n) { tname_fill(tn, n); return tn; }
 	return !strcmp(nm, "-") ? 0 : !strcmp(nm, "L") ? LONGNAME : !strcmp(nm, "M") ? MIDNAME : nm;
 }
 
@@ -322,10 +355,11 @@ static void run_case(int ntok, char **tok)
 	case_no = atoi(c);
 	while (t < ntok) {
 		const char *op = tok[t++];
-		if (!strcmp(op, "new")) {
+		if (!strcmp(op, "new") || !strcmp(op, "snew")) {
 			const char *nm = tok[t++];
 			int v = vh_int(tok[t++]);
-			MPT_STRUCT(node) *n = mpt_node_new(0);
+			/* snew: the way node_append.c (the parser) makes a named node: sized for the name and its terminator */
+			MPT_STRUCT(node) *n = mpt_node_new(op[0] == 's' && tname_arg(nm) ? (size_t) tname_arg(nm) + 1 : 0);
 			if (!strcmp(nm, "B")) { char *d = mpt_identifier_set(&n->ident, 0, 1); d[0] = 'a'; }
 			else if (strcmp(nm, "-")) mpt_identifier_set(&n->ident, name_arg(nm), -1);
 			if (v) n->_meta = hm_new(v);
